@@ -89,9 +89,9 @@ func (op R2q) Op_instruction_verilog_state_machine(conf *Config, arch *Arch, rg 
 			result += "						" + strings.ToUpper(Get_register_name(i)) + " : begin\n"
 
 			if queueBits == 1 {
-				result += "							case (current_instruction[" + strconv.Itoa(rom_word-opBits-queueBits-1) + "])\n"
+				result += "							case (current_instruction[" + strconv.Itoa(rom_word-opBits-int(arch.R)-1) + "])\n"
 			} else {
-				result += "							case (current_instruction[" + strconv.Itoa(rom_word-opBits-queueBits-1) + ":" + strconv.Itoa(rom_word-opBits-int(arch.R)-int(queueBits)) + "])\n"
+				result += "							case (current_instruction[" + strconv.Itoa(rom_word-opBits-int(arch.R)-1) + ":" + strconv.Itoa(rom_word-opBits-int(arch.R)-int(queueBits)) + "])\n"
 			}
 
 			for j := 0; j < queueNum; j++ {
